@@ -12,7 +12,7 @@ package packages
 //@   at SetUnpackedHash#1 assert [C16] arg0 == hashCompared()
 //@   at imagePuller.Pull#1 assert [C16] unpackedHash(pkg) != hashCompared()
 
-//@ props C09
+//@ props C09,C16
 // Pausing a Package pauses its ObjectDeployment and is hands-off: the pause value written to the ObjectDeployment is
 // the Package's, and no sub-reconciler (unpack, deploy) runs for a paused Package - whether or not its
 // ObjectDeployment exists yet.
@@ -24,3 +24,10 @@ package packages
 //@   sink handleDeletion:Client.Update#1 requires [C09] true
 //@   sink RemoveFinalizer:Client.Patch#1 requires [C09] true
 //@   sink updateStatus:SubResourceWriter.Update requires [C09] true
+// What a pass found (Unpacked=False after a failed pull, Invalid, ...) is persisted: every pass over a live Package that
+// got as far as looking up its ObjectDeployment and ends without error has sent the status update - also when a
+// sub-reconciler only asks to come back later.
+//@   after Client.Get#2 ghost pkgLive() := true
+//@   after updateStatus ghost pkgStatusSent() := true
+//@   loop @reconciler.Reconcile invariant [C16] pkgLive() == loopentry(pkgLive()) && pkgStatusSent() == loopentry(pkgStatusSent())
+//@   ensures [C16] err == nil && pkgLive() && !old(pkgLive()) && !old(pkgStatusSent()) ==> pkgStatusSent()
